@@ -8,7 +8,8 @@ VERIF = os.path.dirname(os.path.dirname(os.path.dirname(os.path.abspath(__file__
 
 
 def safe_name(key):
-    return re.sub(r"[^A-Za-z0-9_.-]+", "_", key)[:150]
+    import hashlib
+    return re.sub(r"[^A-Za-z0-9_.-]+", "_", key)[:110] + "-" + hashlib.sha1(key.encode()).hexdigest()[:8]
 
 
 class Instance:
